@@ -59,6 +59,7 @@ pub fn run(tier: Tier) -> i32 {
     profile.collide = true;
     profile.kind_mix = true;
     profile.xml_lang = 1;
+    profile.seq_in_choice = true;
     profile.colliding_abbrev = true;
     profile.max_files = 4;
     ev.extra.insert("gates_masked".into(), json!(gates));
